@@ -1,0 +1,28 @@
+// Copyright 2024 Contributors to the Veraison project.
+// SPDX-License-Identifier: Apache-2.0
+
+//go:build verif
+
+package psatoken
+
+import "sync/atomic"
+
+var verifObserver atomic.Pointer[func(event, detail string)]
+
+// VerifSetObserver installs (or, with nil, removes) the callback that
+// receives the events reported through verifObserve. It exists only in builds
+// with the "verif" tag and is used by external runtime monitors.
+func VerifSetObserver(f func(event, detail string)) {
+	if f == nil {
+		verifObserver.Store(nil)
+		return
+	}
+
+	verifObserver.Store(&f)
+}
+
+func verifObserve(event, detail string) {
+	if f := verifObserver.Load(); f != nil {
+		(*f)(event, detail)
+	}
+}
